@@ -7,6 +7,7 @@ package obfs4
 //@ import bytes "bytes"
 //@ import net "net"
 //@ import time "time"
+//@ import curve25519 "golang.org/x/crypto/curve25519"
 //@ import transports "github.com/refraction-networking/conjure/pkg/transports"
 
 // C04 "relay deadlines set on the wrapped connection (requires the wrapped connection to support deadlines)": the
@@ -36,3 +37,18 @@ package obfs4
 //@   atcall SetWriteDeadline before: assert @C04: arg0 == c.under && arg1 == t
 //@   atcall SetWriteDeadline before: snap delegated := true
 //@   ensures @C04: defined(delegated)
+
+// C01 (obfs4 node keys): station and client derive the node keys with this one routine from the registration's
+// deterministic reader: first 32 bytes become the (clamped) private key, the public key is X25519(private, basepoint),
+// the NEXT 20 bytes become the node id - 52 bytes are consumed, in that order.
+//@ import io "io"
+//@ func generateObfs4Keys(rand io.Reader) (Obfs4Keys, error)
+//@   requires rand != nil
+//@   atcall Read#1 before: assert @C01: arg0 == rand && len(arg1) == 32
+//@   atcall Read#2 before: assert @C01: arg0 == rand && len(arg1) == 20 && drawn(rand) == old(drawn(rand)) + 32
+//@   atcall X25519 before: assert @C01: len(arg0) == 32 && arg1 == curve25519.Basepoint
+//@   ensures @C01: result1 == nil ==> drawn(rand) == old(drawn(rand)) + 52 && result0.PrivateKey != nil && result0.PublicKey != nil && result0.NodeID != nil
+//@ func (t *ClientTransport) PrepareKeys(pubkey [32]byte, sharedSecret []byte, dRand io.Reader) error
+//@   requires t != nil && dRand != nil
+//@   atcall generateObfs4Keys before: assert @C01: arg0 == dRand
+//@   ensures @C01: true
